@@ -2277,14 +2277,24 @@ class TypeBlocks(ContainerOperand):
             key: if a single value, treated as a row key; if a tuple, treated as a pair of row, column keys.
         '''
         if isinstance(key, tuple):
-            # column dropping can leed to a TB with generator that yields nothing;
+            # column dropping can leed to a TB with generator that yields nothing; the shape reference must then reflect the rows that remain
+            row_key = key[0]
+            if row_key is None:
+                row_count = self._shape[0]
+            else:
+                row_count = len(np.delete(np.arange(self._shape[0]), row_key))
             return TypeBlocks.from_blocks(
                     self._drop_blocks(*key),
-                    shape_reference=self._shape
+                    shape_reference=(row_count, self._shape[1])
                     )
+        # a frame without columns yields no blocks: the shape reference must again reflect the rows that remain
+        if key is None or self._shape[1]:
+            row_count = self._shape[0]
+        else:
+            row_count = len(np.delete(np.arange(self._shape[0]), key))
         return TypeBlocks.from_blocks(
                 self._drop_blocks(row_key=key),
-                shape_reference=self._shape
+                shape_reference=(row_count, self._shape[1])
                 )
 
 
